@@ -44,6 +44,12 @@ func (e Elem) Twice() int            { return e.V * 2 }
 func (e Elem) Add(n int) int         { return e.V + n }
 func (e Elem) Label(p string) string { return p + e.Name }
 func (e Elem) Fail() int             { panic("elem fail") }
+func (e Elem) OrV(o *Elem, d int) int {
+	if o != nil {
+		return o.V
+	}
+	return d + e.V
+}
 
 type Base struct {
 	BI int
@@ -154,6 +160,25 @@ func (e Env) Coalesce(xs ...interface{}) interface{} {
 		}
 	}
 	return nil
+}
+
+// Functions with pointer / interface parameters: nil is a legal argument in any position.
+func (e Env) PickE(a, b *Elem) *Elem {
+	if a != nil {
+		return a
+	}
+	return b
+}
+
+// NilMask reports which of its arguments are nil (bit i set: argument i is nil).
+func (e Env) NilMask(a, b, c interface{}) int {
+	m := 0
+	for i, x := range []interface{}{a, b, c} {
+		if x == nil || (reflect.ValueOf(x).Kind() == reflect.Ptr && reflect.ValueOf(x).IsNil()) {
+			m |= 1 << i
+		}
+	}
+	return m
 }
 
 // Tuple also has the fast-call shape and hands its argument slice back to the caller.
